@@ -92,10 +92,28 @@ INFO = {
  "C16-7": ("C16", "MasterSecretKey::mpk publishes the most recent ACTIVATED secret (same change as C09-5)", "rekey, disable + update, rekey: the pre-rekey public value is published again"),
  "C17-7": ("C17", "refresh moves the identifier out of the user key before the registry lookup (same change as C10-1)", "a refresh refused because the identifier is unknown: the key is left with an empty identifier"),
  "C18-7": ("C18", "MasterSecretKey::mpk publishes the most recent ACTIVATED secret (same change as C09-5)", "encapsulate, rekey, disable + update, recaps: succeeds for a right that cannot be published"),
+ "C01-8": ("C01", "Dimension::rename_attribute unified as remove + insert (a renamed hierarchy attribute moves to the top rank)", "renaming a non-top attribute of a hierarchy, then a key for a higher attribute: it no longer opens the renamed one"),
+ "C02-8": ("C02", "Dimension::rename_attribute (hierarchy) rewritten as remove + insert", "renaming a non-top attribute of a hierarchy, then a key for the new name: it opens every higher attribute"),
+ "C03-8": ("C03", "Dimension::rename_attribute (hierarchy) rewritten as remove + insert (same change as C02-8)", "a rename in a hierarchy followed by key generation"),
+ "C04-8": ("C04", "h_decaps caches the ElGamal session key per right (a chain holds one secret per revision)", "a hybridized right with 2 revisions in the user key and a hybridized encapsulation made before the rotation"),
+ "C05-8": ("C05", "refresh without old secrets uses map_while: stops at the first right the master key no longer holds", "a deletion, update_msk, refresh(keep=false): surviving rights stored after the deleted one are lost"),
+ "C06-8": ("C06", "Attribute::read maps (hybridized, disabled) to EncryptDecrypt", "a disabled hybridized attribute, master key stored and reloaded, then update_msk: keys are published again"),
+ "C07-8": ("C07", "tag comparison rewritten as a 'constant-time' XOR fold (diff ^= a ^ b)", "two tag bytes changed by the same XOR value, or swapped; ~1/256 of the changes of a masked seed"),
+ "C08-8": ("C08", "TracingSecretKey::is_known falls back to the tracing relation when the registry lookup misses", "a key issued after the master key was saved, presented to the restored master key"),
+ "C09-8": ("C09", "get_latest_right_sk silently skips rights the master key does not hold (filter moved from refresh)", "key generation for a policy whose rights are not all in the master key: truncated key instead of an error"),
+ "C10-8": ("C10", "Dimension::rename_attribute (anarchy) detects the clash with the return value of insert", "a refused rename onto an existing name: the existing attribute is overwritten inside the master key"),
+ "C11-8": ("C11", "Attribute::get_encryption_hint reports Classic for a disabled attribute", "disabling the hybridized attribute itself, then update_msk: the right loses its ML-KEM key"),
+ "C12-8": ("C12", "PkeAc::decrypt maps an AE failure to Ok(None)", "an authorized key and an altered or truncated DEM payload: 'not authorized' instead of an error"),
+ "C13-8": ("C13", "MasterSecretKey::length sizes a whole chain from its front secret", "a chain whose revisions have different flavours (hint downgraded after a rekey)"),
+ "C14-8": ("C14", "Sum for R25519Point uses reduce().expect(..)", "a parsed encapsulation without any trap, or a parsed user key without marker: decapsulation panics"),
+ "C15-8": ("C15", "the '&&' branch of parse recurses on the remainder like the '||' branch", "'A && B || C' parses as 'A && (B || C)'"),
+ "C16-8": ("C16", "AE::encrypt derives its nonce from key and plaintext", "two direct AE encryptions under the same key and plaintext"),
+ "C17-8": ("C17", "TracingSecretKey::read accumulates markers across registered identifiers (buffer never cleared)", "a master key with two or more issued keys, stored and reloaded"),
+ "C18-8": ("C18", "full_decaps (hybridized) stops scanning after the first opened component; flag never reset", "an all-hybridized original with two or more targets: the re-encapsulation loses targets"),
  "C07-2": ("C07", "Encapsulations::read accepts any flag value other than 1 as 'classic' (flag turned into a bool, error branch removed)", "a classic encapsulation whose flag byte is changed in bits 1..6: it deserializes to the same object and still decapsulates"),
 }
 logs = ""
-for f in ("/var/tmp/seedeval.txt", "/var/tmp/seedeval2.txt", "/var/tmp/seedeval3.txt", "/var/tmp/seedeval4.txt", "/var/tmp/seedeval5.txt", "/var/tmp/seedeval5_c03.txt", "/var/tmp/seedeval6.txt", "/var/tmp/seedeval6b.txt", "/var/tmp/seedeval6c.txt", "/var/tmp/seedeval7.txt", "/var/tmp/seedeval8.txt", "/var/tmp/seedeval9.txt", "/var/tmp/seedeval10.txt", "/var/tmp/seedeval11.txt", "/var/tmp/seedeval12.txt"):
+for f in ("/var/tmp/seedeval.txt", "/var/tmp/seedeval2.txt", "/var/tmp/seedeval3.txt", "/var/tmp/seedeval4.txt", "/var/tmp/seedeval5.txt", "/var/tmp/seedeval5_c03.txt", "/var/tmp/seedeval6.txt", "/var/tmp/seedeval6b.txt", "/var/tmp/seedeval6c.txt", "/var/tmp/seedeval7.txt", "/var/tmp/seedeval8.txt", "/var/tmp/seedeval9.txt", "/var/tmp/seedeval10.txt", "/var/tmp/seedeval11.txt", "/var/tmp/seedeval12.txt", "/var/tmp/seedeval13.txt", "/var/tmp/seedeval14.txt"):
     if os.path.exists(f):
         logs += open(f).read()
 # split per section
@@ -107,7 +125,9 @@ for ln in logs.split("\n"):
     m = re.match(r"=== (\S+)", ln)
     if m:
         key = m.group(1)
-        if key.startswith("/tmp/mut7/"):
+        if key.startswith("/tmp/mut8/"):
+            cur = key.split("/")[-1] + "-8"
+        elif key.startswith("/tmp/mut7/"):
             cur = key.split("/")[-1] + "-7"
         elif key.startswith("/tmp/mut6/"):
             cur = key.split("/")[-1] + "-6"
@@ -128,7 +148,7 @@ for ln in logs.split("\n"):
     elif cur:
         sections[cur].append(ln)
 confirm = {}
-for f in ("/var/tmp/confirm.txt", "/var/tmp/confirm2.txt", "/var/tmp/confirm3.txt", "/var/tmp/confirm4.txt", "/var/tmp/confirm5.txt", "/var/tmp/confirm6.txt", "/var/tmp/confirm7.txt"):
+for f in ("/var/tmp/confirm.txt", "/var/tmp/confirm2.txt", "/var/tmp/confirm3.txt", "/var/tmp/confirm4.txt", "/var/tmp/confirm5.txt", "/var/tmp/confirm6.txt", "/var/tmp/confirm7.txt", "/var/tmp/confirm8.txt", "/var/tmp/confirm8b.txt"):
     if os.path.exists(f):
         for ln in open(f):
             m = re.match(r"(C\d+(?:-\d)?) \| (.*)", ln)
